@@ -191,6 +191,8 @@ def canon_sig(kt, state_vals, mon_sigs):
             d = d.name
         if isinstance(d, str):
             d = kt.canon(d)
+        if isinstance(d, str) and not d.startswith(('k', 'c')):
+            return 'T:' + d         # a template key of the layout: a fixed role, never renamed (only event symbols are)
         if isinstance(d, str):
             n = names.get(d)
             if n is None:
@@ -216,8 +218,8 @@ def canon_sig(kt, state_vals, mon_sigs):
     cons = []
     for s, n in list(names.items()):
         ne = kt.ne.get(s, ())
-        cons.append((n, tuple(sorted(str(names[x]) if isinstance(x, str) else str(x)
-                                     for x in ne if not isinstance(x, str) or x in names))))
+        cons.append((n, tuple(sorted((str(names[x]) if x in names else 'T:' + x) if isinstance(x, str) else str(x)
+                                     for x in ne if not isinstance(x, str) or x in names or not x.startswith(('k', 'c'))))))
     return (st, ms, tuple(sorted(cons)))
 
 
@@ -379,7 +381,7 @@ def _w_expand2(blob):
         dg = sig_digest(sig)
         if OPTS.get('ra', True) and dg not in _PROBED:
             _PROBED.add(dg)
-            if OPTS.get('z3_new_states', True):
+            if _RNG.random() < OPTS.get('z3_new_states', 1.0):
                 # the path condition of every path that reaches a configuration this worker has not seen is re-decided by z3
                 global _FAST
                 if _FAST is None:
@@ -389,7 +391,7 @@ def _w_expand2(blob):
                 stats['z3_path_checks'] += 1
                 if not sat:
                     raise Unsupported('the native key theory accepted a path that z3 finds infeasible: %r' % (ch.hist,))
-            v2, posts = ra_probe(ch, spec, layout_v)
+            v2, posts = ra_probe(ch, spec, layout_v) if ch.mon.P or ch.mon.V else ([], [])
             stats['ra_probes'] += 1
             viols.extend(v2)
             for st, kt in posts:
